@@ -133,3 +133,16 @@ type Prop struct {
 var Registry = map[string]*Prop{}
 
 func Register(p *Prop) { Registry[p.ID] = p }
+
+var cleanups []func()
+
+// OnExit registers something to undo when the harness process ends normally (scratch files).
+func OnExit(f func()) { cleanups = append(cleanups, f) }
+
+// RunCleanups runs what OnExit registered (a crashed process leaves its scratch files behind).
+func RunCleanups() {
+	for _, f := range cleanups {
+		f()
+	}
+	cleanups = nil
+}
